@@ -11,6 +11,10 @@ behaviourally identical ones (DESIGN.md section 5, must-stay-silent corpus):
   two non-constant operands of == / != are put in text order
 * ``not (a <op> b)``             ->  the negated comparison
 * ``pass`` next to other statements is dropped
+* ``t = A if C else B`` / ``t += ..`` / ``return ..`` with a conditional
+  expression becomes the if / else statement
+* ``t = <pure expression>`` (no calls; operands not rebound afterwards; t bound
+  once) is propagated into every use and dropped
 * ``t = E`` directly followed by the one and only use of t, in a simple
   statement or an ``if`` test    ->  E substituted for t
 * ``n = n + K`` / ``n = n - K`` (K an int literal)  ->  ``n += K`` / ``n -= K``
@@ -198,8 +202,206 @@ def _drop_pass(tree):
                 setattr(n, fld, kept or [b[0]])
 
 
+def _pure(e, okattrs, oksubs=frozenset()):
+    """Expression without calls, subscripts stores, comprehensions: names,
+    constants, attribute reads of never-stored `self.x`, arithmetic,
+    comparisons, boolean operators, conditional expressions."""
+    for n in ast.walk(e):
+        if isinstance(n, ast.Subscript):
+            # element / slice of a parameter that is never rebound or mutated
+            if not (isinstance(n.value, ast.Name) and n.value.id in oksubs and
+                    all(isinstance(x, (ast.Slice, ast.UnaryOp, ast.Load, ast.USub)) or
+                        (isinstance(x, ast.Constant) and type(x.value) is int)
+                        for x in ast.walk(n.slice))):
+                return False
+            continue
+        if isinstance(n, (ast.Call, ast.Lambda, ast.ListComp, ast.SetComp, ast.DictComp,
+                          ast.GeneratorExp, ast.Yield, ast.YieldFrom, ast.Await,
+                          ast.NamedExpr, ast.Starred, ast.List,
+                          ast.Dict, ast.Set, ast.Tuple, ast.JoinedStr)):
+            return False
+        if isinstance(n, ast.Attribute):
+            if not (isinstance(n.value, ast.Name) and (n.value.id, n.attr) in okattrs):
+                return False
+    return True
+
+
+def _propagate_pure_temps(fn):
+    """`t = <pure expression>` with t bound exactly once, whose operands are
+    not rebound afterwards (they are parameters, loop targets of enclosing
+    loops, or bound only earlier in the text): every use of t is replaced by
+    the expression and the assignment is dropped.  Covers the 'introduce a
+    temporary' refactoring for values used several times (`ticking =
+    is_collecting and tick`, `pos = i + j`)."""
+    own = []            # nodes of fn's own scope
+    stack = list(fn.body)
+    while stack:
+        n = stack.pop()
+        own.append(n)
+        for ch in ast.iter_child_nodes(n):
+            if isinstance(ch, (ast.FunctionDef, ast.AsyncFunctionDef, ast.ClassDef,
+                               ast.Lambda)):
+                continue
+            stack.append(ch)
+    # nested scopes that read our locals make renaming unsafe to skip: collect
+    nested_names = set()
+    for n in ast.walk(fn):
+        if n is not fn and isinstance(n, (ast.FunctionDef, ast.AsyncFunctionDef,
+                                          ast.ClassDef, ast.Lambda)):
+            nested_names |= {x.id for x in ast.walk(n) if isinstance(x, ast.Name)}
+    stores = {}
+    for n in own:
+        if isinstance(n, ast.Name) and isinstance(n.ctx, (ast.Store, ast.Del)):
+            stores.setdefault(n.id, []).append(n)
+    attr_stores = set()
+    for n in own:
+        if isinstance(n, ast.Attribute) and isinstance(n.ctx, (ast.Store, ast.Del)) \
+                and isinstance(n.value, ast.Name):
+            attr_stores.add((n.value.id, n.attr))
+    params = {a.arg for a in fn.args.posonlyargs + fn.args.args + fn.args.kwonlyargs}
+    okattrs = set()
+    for n in own:
+        if isinstance(n, ast.Attribute) and isinstance(n.value, ast.Name) and \
+                n.value.id in params and n.value.id not in stores and \
+                (n.value.id, n.attr) not in attr_stores and \
+                fn.args.args and n.value.id == fn.args.args[0].arg:
+            okattrs.add((n.value.id, n.attr))
+    # method calls may change self.x behind our back: only keep okattrs when
+    # the function calls nothing on that object ... too strict; accept reads of
+    # attributes that look like configuration (never stored anywhere in class)
+    # parameters that are never rebound, never subscripted-stored and on which
+    # no method is called: their elements are stable within the call
+    allp = set(params)
+    if fn.args.vararg:
+        allp.add(fn.args.vararg.arg)
+    touched = set()
+    for n in own:
+        if isinstance(n, ast.Subscript) and isinstance(n.ctx, (ast.Store, ast.Del)) \
+                and isinstance(n.value, ast.Name):
+            touched.add(n.value.id)
+        if isinstance(n, ast.Call) and isinstance(n.func, ast.Attribute) and \
+                isinstance(n.func.value, ast.Name):
+            touched.add(n.func.value.id)
+        if isinstance(n, ast.AugAssign) and isinstance(n.target, ast.Name):
+            touched.add(n.target.id)
+    oksubs = frozenset(x for x in allp if x not in stores and x not in touched)
+    loops = [n for n in own if isinstance(n, (ast.For, ast.While))]
+
+    def enclosing_loops(node):
+        return [lp for lp in loops if any(x is node for x in ast.walk(lp))]
+    changed = False
+    for n in list(own):
+        if not (isinstance(n, ast.Assign) and len(n.targets) == 1 and
+                isinstance(n.targets[0], ast.Name)):
+            continue
+        t = n.targets[0].id
+        if len(stores.get(t, [])) != 1 or t in params or t in nested_names:
+            continue
+        if isinstance(n.value, (ast.Constant, ast.Name)) and not isinstance(n.value, ast.Name):
+            continue        # constants are flags / initial values, keep them
+        if not isinstance(n.value, (ast.BoolOp, ast.Compare, ast.UnaryOp, ast.BinOp,
+                                    ast.IfExp, ast.Subscript)):
+            continue
+        if not _pure(n.value, set(), oksubs):
+            continue
+        encl = enclosing_loops(n)
+        ok = True
+        for x in ast.walk(n.value):
+            if isinstance(x, ast.Name):
+                for st in stores.get(x.id, []):
+                    is_target = any(isinstance(lp, ast.For) and
+                                    any(y is st for y in ast.walk(lp.target))
+                                    for lp in encl)
+                    if not is_target and not (st.lineno < n.lineno and
+                                              not any(any(y is st for y in ast.walk(lp))
+                                                      for lp in encl)):
+                        ok = False
+        if not ok:
+            continue
+        uses = [x for x in own if isinstance(x, ast.Name) and x.id == t
+                and isinstance(x.ctx, ast.Load)]
+        if not uses or any(u.lineno < n.lineno for u in uses):
+            continue
+        # uses must lie in the same block or deeper (dominated): approximate by
+        # requiring the definition's block to contain them
+        par = None
+        for p_ in own + [fn]:
+            for fld in ("body", "orelse", "finalbody"):
+                b = getattr(p_, fld, None)
+                if isinstance(b, list) and n in b:
+                    par = b
+        if par is None:
+            continue
+        after = par[par.index(n) + 1:]
+        inside = {id(x) for st in after for x in ast.walk(st)}
+        if not all(id(u) in inside for u in uses):
+            continue
+        import copy as _copy
+        for st in after:
+            _SubstAll(t, n.value).visit(st)
+        par.remove(n)
+        changed = True
+    return changed
+
+
+class _SubstAll(ast.NodeTransformer):
+    def __init__(self, name, value):
+        self.name, self.value = name, value
+
+    def visit_Name(self, node):
+        if node.id == self.name and isinstance(node.ctx, ast.Load):
+            import copy as _copy
+            return ast.copy_location(_copy.deepcopy(self.value), node)
+        return node
+
+    def visit_FunctionDef(self, node):
+        return node
+
+    visit_Lambda = visit_FunctionDef
+    visit_ClassDef = visit_FunctionDef
+
+
+def _expand_ifexp(tree):
+    """`t = A if C else B` -> `if C: t = A else: t = B` (also for augmented
+    assignments and returns): the statement form and the expression form of a
+    two-way choice become one."""
+    import copy as _copy
+
+    def conv(st):
+        v = getattr(st, "value", None)
+        if isinstance(st, (ast.Assign, ast.AugAssign, ast.Return)) and isinstance(v, ast.IfExp) \
+                and not (isinstance(st, ast.Assign) and
+                         not all(isinstance(t, (ast.Name, ast.Attribute, ast.Subscript))
+                                 for t in st.targets)):
+            a, b = _copy.deepcopy(st), _copy.deepcopy(st)
+            a.value, b.value = v.body, v.orelse
+            new = ast.If(test=v.test, body=conv(a), orelse=conv(b))
+            return [ast.copy_location(new, st)]
+        return [st]
+
+    def rec(node):
+        for fld in ("body", "orelse", "finalbody"):
+            b = getattr(node, fld, None)
+            if isinstance(b, list) and b and isinstance(b[0], ast.stmt):
+                out = []
+                for st in b:
+                    rec(st)
+                    out.extend(conv(st))
+                setattr(node, fld, out)
+        if isinstance(node, ast.Try):
+            for h in node.handlers:
+                rec(h)
+    rec(tree)
+
+
 def normalise(tree):
     _drop_pass(tree)
+    _expand_ifexp(tree)
+    for fn in [n for n in ast.walk(tree)
+               if isinstance(n, (ast.FunctionDef, ast.AsyncFunctionDef))]:
+        for _ in range(4):
+            if not _propagate_pure_temps(fn):
+                break
     for fn in [n for n in ast.walk(tree)
                if isinstance(n, (ast.FunctionDef, ast.AsyncFunctionDef))]:
         _inline_return_temps(fn)
